@@ -1,3 +1,4 @@
+import Lean
 import H2V.Lemmas.ConnResetPState
 /-
   ConnResetP — `Evolves SRel RInv` for the operations of prioritize.rs / send.rs that touch the state
@@ -6,6 +7,8 @@ import H2V.Lemmas.ConnResetPState
 set_option linter.unusedSectionVars false
 namespace H2V.Lemmas.ConnResetP
 open H2V H2V.Model H2V.Model.Conn
+
+attribute [local reducible] Streams.stream Store.getD'
 
 section
 variable {a : Store} {s : Streams}
@@ -32,7 +35,8 @@ macro_rules | `(tactic| ev_step) => `(tactic| (with_reducible refine queueFrame_
 syntax "state_step_tac" : tactic
 macro_rules
   | `(tactic| state_step_tac) =>
-    `(tactic| first
+    `(tactic| with_reducible first
+      | exact StateStep.same
       | exact step_sendOpen _ _ _ | exact step_recvOpen _ _ _ _ | exact step_reserveRemote _ _
       | exact step_reserveLocal _ _ | exact step_recvClose _ _ | exact step_sendClose _ _ (by assumption)
       | exact step_recvReset _ _ _ _ | exact step_handleError _ _ _ | exact step_recvEof _ _)
@@ -128,6 +132,250 @@ macro_rules | `(tactic| ev_step) => `(tactic| with_reducible apply sendHandleErr
 theorem sendClearQueues_sr (h : Evolves SRel RInv a s.store) : Evolves SRel RInv a s.sendClearQueues.store := by
   unfold Streams.sendClearQueues; ev
 macro_rules | `(tactic| ev_step) => `(tactic| with_reducible apply sendClearQueues_sr)
+
+
+-- ===================================================================== send_reset
+
+theorem clearQueue_store (s : Streams) (id : Nat) :
+    (s.clearQueue id).store =
+      Store.mod s.store id (fun st => { st with pendingSend := [], bufferedSendData := 0, requestedSendCapacity := 0 }) := by
+  unfold Streams.clearQueue
+  extract_lets s1
+  split
+  · split <;> simp [s1]
+  · simp [s1]
+
+theorem queueFrame_store (s : Streams) (id : Nat) (f : SFrame) :
+    ∃ g : Stream → Stream, ((∀ x, g x = x) ∨ (∀ x, g x = x.setQueued .pendingSend true)) ∧
+      (s.queueFrame id f).store = Store.mod s.store id (fun st => g { st with pendingSend := st.pendingSend ++ [f] }) := by
+  unfold Streams.queueFrame Streams.scheduleSend
+  split
+  · simp only [crp_store, qPush_store]
+    split
+    · exact ⟨fun x => x, .inl fun _ => rfl, by simp⟩
+    · refine ⟨fun x => x.setQueued .pendingSend true, .inr fun _ => rfl, ?_⟩
+      rw [Store.mod_mod _ _ _ _ (by intro; rfl) (by intro x; exact setQueued_key x _ _)]
+  · exact ⟨fun x => x, .inl fun _ => rfl, by simp⟩
+
+
+/-- everything but the state and the four task slots -/
+structure SameButTasks (a b : Stream) : Prop where
+  key : b.key = a.key
+  id : b.id = a.id
+  pendingSend : b.pendingSend = a.pendingSend
+  bufferedSendData : b.bufferedSendData = a.bufferedSendData
+  requestedSendCapacity : b.requestedSendCapacity = a.requestedSendCapacity
+  isPendingOpen : b.isPendingOpen = a.isPendingOpen
+  isPendingPush : b.isPendingPush = a.isPendingPush
+  isPendingSend : b.isPendingSend = a.isPendingSend
+  refCount : b.refCount = a.refCount
+  sendFlow : b.sendFlow = a.sendFlow
+  isPendingSendCapacity : b.isPendingSendCapacity = a.isPendingSendCapacity
+  resetAt : b.resetAt = a.resetAt
+  isCounted : b.isCounted = a.isCounted
+
+theorem sameButTasks_notifySend (st : Stream) : SameButTasks st st.notifySend.1 := by
+  unfold Stream.notifySend
+  cases h1 : st.sendTask <;> dsimp only <;> split <;> constructor <;> rfl
+theorem sameButTasks_notifyRecv (st : Stream) : SameButTasks st st.notifyRecv.1 := by
+  unfold Stream.notifyRecv; split <;> constructor <;> rfl
+theorem sameButTasks_notifyPush (st : Stream) : SameButTasks st st.notifyPush.1 := by
+  unfold Stream.notifyPush; split <;> constructor <;> rfl
+theorem SameButTasks.trans {a b c : Stream} (h1 : SameButTasks a b) (h2 : SameButTasks b c) : SameButTasks a c := by
+  constructor
+  all_goals first
+    | exact h2.key.trans h1.key | exact h2.id.trans h1.id | exact h2.pendingSend.trans h1.pendingSend
+    | exact h2.bufferedSendData.trans h1.bufferedSendData | exact h2.requestedSendCapacity.trans h1.requestedSendCapacity
+    | exact h2.isPendingOpen.trans h1.isPendingOpen | exact h2.isPendingPush.trans h1.isPendingPush
+    | exact h2.isPendingSend.trans h1.isPendingSend | exact h2.refCount.trans h1.refCount
+    | exact h2.sendFlow.trans h1.sendFlow | exact h2.isPendingSendCapacity.trans h1.isPendingSendCapacity
+    | exact h2.resetAt.trans h1.resetAt | exact h2.isCounted.trans h1.isCounted
+
+theorem sameButTasks_setReset (st : Stream) (r : Reason) (i : Initiator) : SameButTasks st (st.setReset r i).1 := by
+  have h0 : SameButTasks st { st with state := st.state.setReset st.id r i } := by constructor <;> rfl
+  have h1 := sameButTasks_notifySend { st with state := st.state.setReset st.id r i }
+  have h2 := sameButTasks_notifyPush ({ st with state := st.state.setReset st.id r i }).notifySend.1
+  have h3 := sameButTasks_notifyRecv (({ st with state := st.state.setReset st.id r i }).notifySend.1).notifyPush.1
+  exact ((h0.trans h1).trans h2).trans h3
+
+
+theorem Store.getD'_mod {S : Store} {id : Nat} {st : Stream} (f : Stream → Stream) (hf : ∀ x, (f x).key = x.key)
+    (h : S.get? id = some st) : Store.getD' (Store.mod S id f) id = f st := by
+  unfold Store.getD'
+  rw [Store.get?_mod' _ _ _ hf, if_pos rfl, h]; rfl
+
+/-- what `send_reset` makes of the stream it resets -/
+structure ResetSpec (st y : Stream) (r : Reason) (i : Initiator) : Prop where
+  key : y.key = st.key
+  id : y.id = st.id
+  state : y.state = st.state.setReset st.id r i
+  pendingSend : y.pendingSend = (if st.isPendingOpen then st.pendingSend.head?.toList else []) ++ [.reset r]
+  bufferedSendData : y.bufferedSendData = 0
+  requestedSendCapacity : y.requestedSendCapacity = 0
+  isPendingOpen : y.isPendingOpen = st.isPendingOpen
+  isPendingPush : y.isPendingPush = st.isPendingPush
+  refCount : y.refCount = st.refCount
+  sendFlow : y.sendFlow = st.sendFlow
+
+/-- the part of `send_reset` before `reclaim_all_capacity`, on a stream that is not reset yet and has
+    something unsent (or is not closed) -/
+def sendResetPre (s : Streams) (id : Nat) (reason : Reason) (init : Initiator) : Streams :=
+  let s := s.modStreamW id fun st => st.setReset reason init
+  let s :=
+    if (s.stream id).isPendingOpen then
+      let headers := (s.stream id).pendingSend.head?
+      let s := s.modStream id fun st => { st with pendingSend := st.pendingSend.drop 1 }
+      let s := s.clearQueue id
+      match headers with
+      | some f => s.modStream id fun st => { st with pendingSend := st.pendingSend ++ [f] }
+      | none => s
+    else s.clearQueue id
+  s.queueFrame id (.reset reason)
+
+theorem sendSendReset_eq (s : Streams) (id : Nat) (r : Reason) (i : Initiator)
+    (hr : (s.stream id).state.isReset = false)
+    (hne : ((s.stream id).state.isClosed && ((s.stream id).pendingSend.isEmpty && (s.stream id).bufferedSendData == 0)) = false) :
+    s.sendSendReset id r i = (sendResetPre s id r i).reclaimAllCapacity id := by
+  unfold Streams.sendSendReset sendResetPre
+  simp only [hr, hne, Bool.false_eq_true, if_false]
+  rfl
+
+theorem resetSpec_close (st : Stream) (r : Reason) (i : Initiator) (g : Stream → Stream) (L : List SFrame)
+    (hg : (∀ x, g x = x) ∨ (∀ x, g x = x.setQueued .pendingSend true))
+    (hL : L = if st.isPendingOpen then st.pendingSend.head?.toList else []) :
+    ResetSpec st (g { ({ (st.setReset r i).1 with pendingSend := L, bufferedSendData := 0, requestedSendCapacity := 0 } : Stream)
+      with pendingSend := L ++ [SFrame.reset r] }) r i := by
+  have sb := sameButTasks_setReset st r i
+  have hs := setReset_state st r i
+  subst hL
+  rcases hg with hg | hg <;> rw [hg] <;> constructor <;>
+    first | exact sb.key | exact sb.id | exact hs | rfl | exact sb.isPendingOpen | exact sb.isPendingPush
+          | exact sb.refCount | exact sb.sendFlow
+
+theorem sendResetPre_store (s : Streams) (id : Nat) (r : Reason) (i : Initiator) :
+    ∃ G : Stream → Stream, (sendResetPre s id r i).store = Store.mod s.store id G ∧ (∀ x, (G x).key = x.key) ∧
+      ∀ st, s.store.get? id = some st → ResetSpec st (G st) r i := by
+  unfold sendResetPre
+  extract_lets s1 headers sA sB s2
+  have hs1 : s1.store = Store.mod s.store id (fun st => (st.setReset r i).1) := by simp [s1]
+  have hk1 : ∀ x : Stream, (x.setReset r i).1.key = x.key := fun x => setReset_key x r i
+  have h1 : ∀ st, s.store.get? id = some st → s1.stream id = (st.setReset r i).1 := by
+    intro st hg; rw [stream_eq, hs1]; exact Store.getD'_mod _ hk1 hg
+  obtain ⟨g, hg1, hg2⟩ := queueFrame_store s2 id (.reset r)
+  have hgk : ∀ x, (g x).key = x.key := by
+    intro x; rcases hg1 with h | h <;> rw [h]; exact setQueued_key _ _ _
+  rw [hg2]
+  -- the store of `s2` in every case: the reset stream with the queue `L`
+  have key : ∀ L : List SFrame,
+      s2.store = Store.mod s.store id (fun st =>
+        ({ (st.setReset r i).1 with pendingSend := L, bufferedSendData := 0, requestedSendCapacity := 0 } : Stream)) →
+      (∀ st, s.store.get? id = some st → L = if st.isPendingOpen then st.pendingSend.head?.toList else []) →
+      ∃ G : Stream → Stream, Store.mod s2.store id (fun st => g { st with pendingSend := st.pendingSend ++ [SFrame.reset r] })
+          = Store.mod s.store id G ∧ (∀ x, (G x).key = x.key) ∧
+        ∀ st, s.store.get? id = some st → ResetSpec st (G st) r i := by
+    intro L hs2 hL
+    rw [hs2, Store.mod_mod _ _ _ _ (by intro x; exact hk1 x) (by intro x; exact hgk _)]
+    exact ⟨_, rfl, fun x => (hgk _).trans (hk1 x), fun st hst => resetSpec_close st r i g L hg1 (hL st hst)⟩
+  by_cases hpo : (s1.stream id).isPendingOpen = true
+  · cases hh : headers with
+    | none =>
+      refine key [] ?_ ?_
+      · have e2 : s2 = sB := by simp only [s2, hpo, if_true, hh]
+        rw [e2]
+        simp only [sB, sA, clearQueue_store, modStream_store, hs1]
+        rw [Store.mod_mod _ _ _ _ (by intro x; first | rfl | exact hk1 _) (by intro x; first | rfl | exact hk1 _), Store.mod_mod _ _ _ _ (by intro x; first | rfl | exact hk1 _) (by intro x; first | rfl | exact hk1 _)]
+      · intro st hst
+        have sb := sameButTasks_setReset st r i
+        have e := h1 st hst
+        simp only [headers, e, sb.pendingSend] at hh
+        rw [e, sb.isPendingOpen] at hpo
+        simp [hpo, hh]
+    | some f =>
+      refine key [f] ?_ ?_
+      · have e2 : s2 = sB.modStream id fun st => { st with pendingSend := st.pendingSend ++ [f] } := by
+          simp only [s2, hpo, if_true, hh]
+        rw [e2]
+        simp only [sB, sA, clearQueue_store, modStream_store, hs1]
+        rw [Store.mod_mod _ _ _ _ (by intro x; first | rfl | exact hk1 _) (by intro x; first | rfl | exact hk1 _), Store.mod_mod _ _ _ _ (by intro x; first | rfl | exact hk1 _) (by intro x; first | rfl | exact hk1 _),
+          Store.mod_mod _ _ _ _ (by intro x; first | rfl | exact hk1 _) (by intro x; first | rfl | exact hk1 _)]
+        rfl
+      · intro st hst
+        have sb := sameButTasks_setReset st r i
+        have e := h1 st hst
+        simp only [headers, e, sb.pendingSend] at hh
+        rw [e, sb.isPendingOpen] at hpo
+        simp [hpo, hh]
+  · refine key [] ?_ ?_
+    · have e2 : s2 = s1.clearQueue id := by simp only [s2, hpo, Bool.false_eq_true, if_false]
+      rw [e2]
+      simp only [clearQueue_store, hs1]
+      rw [Store.mod_mod _ _ _ _ (by intro x; first | rfl | exact hk1 _) (by intro x; first | rfl | exact hk1 _)]
+    · intro st hst
+      have sb := sameButTasks_setReset st r i
+      have e := h1 st hst
+      rw [e, sb.isPendingOpen] at hpo
+      simp [hpo]
+
+
+
+/-- a stream that was not reset is closed by an error and its queue rewritten in one step -/
+theorem SRel.reset_atomic' {a b : Stream} (hk : b.key = a.key) (hi : b.id = a.id)
+    (ha : a.state.isReset = false) (hb : isErr b.state = true) (hq : RInv a → resetCount b.pendingSend ≤ 1) : SRel a b := by
+  refine ⟨hk, hi, fun i => ⟨hq i, fun _ => hb⟩, fun _ => ?_, fun _ => (isErr_closed hb).2, fun _ => (isErr_closed hb).1, ?_⟩
+  · unfold rank; rw [ha]; simp
+  · constructor <;> intro e he
+    · rw [(facts_of_error he).1] at ha; cases ha
+    · rw [(facts_of_errorAES he).1] at ha; cases ha
+
+theorem resetCount_zero_of_fresh {st : Stream} (i : RInv st) (hr : st.state.isReset = false) :
+    resetCount st.pendingSend = 0 := by
+  have := i.le
+  rcases Nat.lt_or_ge (resetCount st.pendingSend) 1 with h | h
+  · omega
+  · have := i.err (by omega); unfold isErr at this; simp [hr] at this
+
+theorem ResetSpec.srel {st y : Stream} {r : Reason} {i : Initiator} (h : ResetSpec st y r i)
+    (hr : st.state.isReset = false) : SRel st y := by
+  refine SRel.reset_atomic' h.key h.id hr (by rw [h.state]; rfl) (fun inv => ?_)
+  rw [h.pendingSend]
+  have h0 := resetCount_zero_of_fresh inv hr
+  have h1 := resetCount_head?_le st.pendingSend
+  simp only [resetCount_append, resetCount_cons, resetCount_nil, isResetFrame]
+  split <;> simp <;> omega
+
+theorem sendSendReset_sr (h : Evolves SRel RInv a s.store) (id : Nat) (r : Reason) (i : Initiator) :
+    Evolves SRel RInv a (s.sendSendReset id r i).store := by
+  by_cases hr : (s.stream id).state.isReset = true
+  · unfold Streams.sendSendReset; simp only [hr, if_true]; exact h
+  · have hr' : (s.stream id).state.isReset = false := by simpa using hr
+    by_cases hne : ((s.stream id).state.isClosed &&
+        ((s.stream id).pendingSend.isEmpty && (s.stream id).bufferedSendData == 0)) = true
+    · unfold Streams.sendSendReset
+      simp only [hr', hne, Bool.false_eq_true, if_false, if_true]
+      simp only [crp_store]
+      refine h.mod _ _ (fun st hg => ?_)
+      rw [stream_of_get? _ hg] at hr'
+      exact SRel.setReset_fresh st r i hr'
+    · have hne' : ((s.stream id).state.isClosed &&
+          ((s.stream id).pendingSend.isEmpty && (s.stream id).bufferedSendData == 0)) = false := by simpa using hne
+      rw [sendSendReset_eq s id r i hr' hne']
+      apply reclaimAllCapacity_ev
+      obtain ⟨G, hG, _, hspec⟩ := sendResetPre_store s id r i
+      rw [hG]
+      refine h.mod _ _ (fun st hg => ?_)
+      rw [stream_of_get? _ hg] at hr'
+      exact (hspec st hg).srel hr'
+macro_rules | `(tactic| ev_step) => `(tactic| with_reducible apply sendSendReset_sr)
+
+theorem sendRecvStreamWindowUpdate_sr (h : Evolves SRel RInv a s.store) (id sz : Nat) :
+    Evolves SRel RInv a (s.sendRecvStreamWindowUpdate id sz).1.store := by
+  unfold Streams.sendRecvStreamWindowUpdate; ev
+macro_rules | `(tactic| ev_step) => `(tactic| with_reducible apply sendRecvStreamWindowUpdate_sr)
+
+theorem sendApplyRemoteSettings_sr (h : Evolves SRel RInv a s.store) (i p c : Option Nat) :
+    Evolves SRel RInv a (s.sendApplyRemoteSettings i p c).1.store := by
+  unfold Streams.sendApplyRemoteSettings; ev
+macro_rules | `(tactic| ev_step) => `(tactic| with_reducible apply sendApplyRemoteSettings_sr)
 
 end
 end H2V.Lemmas.ConnResetP
